@@ -81,7 +81,7 @@ func c07buildBytes(r *rand.Rand, which int) *c07byteShape {
 }
 
 func c07bytesStratum(c *mon.Ctx) {
-	c.Stratum("hostile-bytes", c.N(1400, 52500), func(k *mon.Case) {
+	c.Stratum("hostile-bytes", c.N(1400, 35000), func(k *mon.Case) {
 		r := k.Rng
 		sh := c07buildBytes(r, k.Index+k.Index/16)
 		k.Input(sh.table)
